@@ -102,7 +102,7 @@ pub fn c08_specs(quick: bool) -> Vec<EwSpec> {
 pub fn c08(quick: bool) -> PropRun {
     let d = 3;
     let timeouts: &[u64] = if quick { &[3000] } else { &[3000, 20_000] };
-    let scs = assemble(c08_specs(quick), vec![], quick, "C08", EO_C08);
+    let scs = assemble(c08_specs(quick), vec![config_extremes_scenario("C08", if std::env::var("VERIF_ALLMASK").is_ok() { EO_C07 | EO_C08 | EO_C09 | EO_C10 | EO_C13 | EO_C20 | EO_C12 | EO_C17 } else { EO_C08 }, if quick { 2 } else { 3 })], quick, "C08", EO_C08);
     PropRun { level: "model_checking", scenarios: scs, units: vec![], replay_case: None, summary: ew_summary(
         "every explored execution's event streams (client: per Client object; server: per address, with Server::drop as a silent end) are run through the reference automaton Connect? Receive* (Disconnect|Error)?",
         json!({"d": d, "application_menu": "send / disconnect / disconnect_now / drop / reconnect from the same address / forget / flush, on either side, at every round of the window", "fates": "deliver/drop/dup/hold2/stale copy 10 rounds later on every datagram", "deltas_ms": [100, 0, 2000, 20000], "active_timeouts_ms": timeouts})) }
@@ -328,6 +328,52 @@ pub fn c13_endpoint_scenario() -> Scenario {
 }
 
 
+/// Configuration extremes: every field of either endpoint's `EndpointConfig` (and the server's two connection limits) set to a boundary
+/// value of its type or of the checks in `is_valid()` - one field at a time (d = 1) or two (d = 2); every configuration used is one that
+/// `Config::is_valid()` accepts. A short session (handshake, Reliable / Unreliable / Persistent packets both ways including one of the
+/// largest size both ends admit, flushing disconnect) runs on a loss-free network. `mask` selects the monitors.
+pub fn config_extremes_scenario(tag: &str, mask: u32, d: usize) -> Scenario {
+    const RATES: &[usize] = &[1, 23, 1472, u32::MAX as usize - 1, u32::MAX as usize, 1 << 32, (1 << 32) + 3000, usize::MAX];
+    const PSIZES: &[usize] = &[1, 1448, 1449, 65_536, uflow::MAX_PACKET_SIZE];
+    const ALLOCS: &[usize] = &[1, 1448, 999_999, 1_000_001, u32::MAX as usize, 1 << 32, usize::MAX];
+    const KAS: &[u64] = &[0, 1, u64::MAX];
+    // a time-out of 0 ms ends the connection in the step that establishes it; that degenerate value is run with the panic oracle only (mask 0)
+    let tos: &'static [u64] = if mask == 0 { &[0, 1, 2500, 1 << 32, u64::MAX] } else { &[1, 2500, 1 << 32, u64::MAX] };
+    let name = format!("{}.config-extremes|rates{:?}|packet{:?}|alloc{:?}|keepalive{:?}off|timeout{:?}|limits1|d{}", tag, RATES, PSIZES, ALLOCS, KAS, tos, d);
+    let run = move |ch: &mut Chooser| -> ExecResult {
+        let mut cfg = EwCfg::new(1);
+        let mut desc: Vec<String> = Vec::new();
+        for side in 0..2 {
+            let who = if side == 0 { "server" } else { "client" };
+            let ec: &mut EndpointConfig = if side == 0 { &mut cfg.server } else { &mut cfg.clients[0] };
+            let k = ch.choose(RATES.len() + 1); if k > 0 { ec.max_send_rate = RATES[k - 1]; desc.push(format!("{} max_send_rate {}", who, RATES[k - 1])); }
+            let k = ch.choose(RATES.len() + 1); if k > 0 { ec.max_receive_rate = RATES[k - 1]; desc.push(format!("{} max_receive_rate {}", who, RATES[k - 1])); }
+            let k = ch.choose(PSIZES.len() + 1); if k > 0 { ec.max_packet_size = PSIZES[k - 1]; desc.push(format!("{} max_packet_size {}", who, PSIZES[k - 1])); }
+            let k = ch.choose(ALLOCS.len() + 1); if k > 0 { ec.max_receive_alloc = ALLOCS[k - 1]; desc.push(format!("{} max_receive_alloc {}", who, ALLOCS[k - 1])); }
+            let k = ch.choose(KAS.len() + 2); if k > 0 { if k - 1 < KAS.len() { ec.keepalive_interval_ms = KAS[k - 1]; desc.push(format!("{} keepalive_interval_ms {}", who, KAS[k - 1])); } else { ec.keepalive = false; desc.push(format!("{} keepalive off", who)); } }
+            let k = ch.choose(tos.len() + 1); if k > 0 { ec.active_timeout_ms = tos[k - 1]; desc.push(format!("{} active_timeout_ms {}", who, tos[k - 1])); }
+        }
+        let k = ch.choose(3); if k == 1 { cfg.max_total = 1; cfg.max_active = 1; desc.push("server limits 1/1".into()); } else if k == 2 { cfg.max_total = usize::MAX; cfg.max_active = usize::MAX; desc.push("server limits usize::MAX".into()); }
+        // the largest packet both ends admit (the receiver's allocation is at least its sender's default packet size in every combination above)
+        let up = cfg.clients[0].max_packet_size.min(3000); let down = cfg.server.max_packet_size.min(3000);
+        let script: Vec<EwOp> = vec![at(0, Act::Connect(0)),
+            after_c(0, 1, Act::CSend(0, 0, SendMode::Reliable, 1.min(up))), after_c(0, 1, Act::CSend(0, 1, SendMode::Unreliable, 50.min(up))), after_c(0, 2, Act::CSend(0, 0, SendMode::Reliable, up)),
+            after_s(0, 1, Act::SSend(0, 0, SendMode::Reliable, 100.min(down))), after_s(0, 1, Act::SSend(0, 2, SendMode::Persistent, 60.min(down))), after_s(0, 2, Act::SSend(0, 0, SendMode::Reliable, down)),
+            after_c(0, 60, Act::CDisconnect(0))];
+        let mut env = EwEnv::basic(0, 400);
+        env.fates = DF_NONE; env.deltas = &[100]; env.fair_delta = 100;
+        let spec = EwSpec { tag: "config-extremes".into(), cfg: cfg.clone(), script: Arc::new(script), env: env.clone(), d: 0, oracles: mask, n_raw: 0 };
+        let mut c0 = Chooser::new(vec![], vec![]);
+        let tr = run_ew(&cfg, &spec.script, &env, &mut c0);
+        if crate::lwprops::verbose() { print_ew(&cfg, &tr); }
+        let mut violations = eval_ew(&spec, &tr);
+        for v in violations.iter_mut() { v.detail = format!("[{}] {}", desc.join(", "), v.detail); }
+        ExecResult { violations, panic: None, outcome: ew_outcome(&tr), states: ew_states(&tr), transitions: tr.obs.len() as u64, witnesses: ew_witnesses(&tr) << 32,
+                     sample: if desc.len() == 2 || ch.taken.iter().all(|&c| c == 0) { Some(format!("configuration [{}]: {} rounds, {} datagrams, events {:?}", desc.join(", "), tr.rounds, tr.wire.len(), tr.cev.iter().chain(tr.sev.iter()).flatten().map(|e| ev_name(&e.ev)).collect::<Vec<_>>())) } else { None } }
+    };
+    Scenario { name, d, run: Box::new(run) }
+}
+
 /// C12 at the API: TimeSensitive and Unreliable packets handed to Client::send while the client is still connecting (they wait in the
 /// pending client; the handshake datagrams are held, lost or delivered in every combination), right after Connect, and by the server.
 pub fn c12_api_specs(quick: bool) -> Vec<EwSpec> {
@@ -346,7 +392,8 @@ pub fn c12_api_specs(quick: bool) -> Vec<EwSpec> {
 }
 
 pub fn c07(quick: bool) -> PropRun {
-    let (own, custom) = c07_parts(quick);
+    let (own, mut custom) = c07_parts(quick);
+    custom.push(config_extremes_scenario("C07", EO_C07 | EO_C08, if quick { 2 } else { 3 }));
     let scs = assemble(own, custom, quick, "C07", EO_C07 | EO_C08);
     PropRun { level: "model_checking", scenarios: scs, units: vec![], replay_case: None, summary: ew_summary(
         "handshake ledger over every explored execution: Connect only after the matching nonce was delivered, one Connect per handshake, first data frames start at the exchanged nonces and the echo completes, incompatible configurations are refused with Error(Config); forged handshake frames are checked differentially against the same run without the forgery",
@@ -771,7 +818,8 @@ pub fn c10_parts(quick: bool) -> (Vec<EwSpec>, Vec<Scenario>) {
 pub fn c10_specs(quick: bool) -> Vec<EwSpec> { c10_parts(quick).0 }
 
 pub fn c10(quick: bool) -> PropRun {
-    let (own, custom) = c10_parts(quick);
+    let (own, mut custom) = c10_parts(quick);
+    custom.push(config_extremes_scenario("C10", EO_C10, if quick { 2 } else { 3 }));
     let scs = assemble(own, custom, quick, "C10", EO_C10);
     let timeouts: &[u64] = &[1000, 3000, 20_000]; let cadences: &[u64] = if quick { &[7, 100, 1000] } else { &[1, 7, 100, 1000] };
     PropRun { level: "model_checking", scenarios: scs, units: vec![], replay_case: None, summary: ew_summary(
